@@ -602,6 +602,11 @@ function describeObjectMember(
   };
 }
 
+function describePropertyKey(key: string): string {
+  // a property name that is not an identifier must be quoted to be valid TypeScript
+  return /^[A-Za-z_$][A-Za-z0-9_$]*$/.test(key) ? key : JSON.stringify(key);
+}
+
 function describeIndexObjectMember(
   ctx: DescribeContext,
   key: Runtype,
@@ -927,7 +932,7 @@ export class BigIntRuntype extends BaseRuntype {
   }
 
   protected describeTypeExpr(_ctx: DescribeContext): string {
-    return "BigInt";
+    return "bigint";
   }
   schema(ctx: SchemaContext): JSONSchema7 {
     throw new Error(buildSchemaErrorMessage(ctx, "Cannot generate JSON Schema for BigInt"));
@@ -2020,7 +2025,7 @@ export class ObjectRuntype extends BaseRuntype {
     const sortedKeys = Object.keys(this.properties).sort();
     const props = sortedKeys.map((k) => {
       const it = this.properties[k];
-      return describeObjectMember(ctx, k, it);
+      return describeObjectMember(ctx, describePropertyKey(k), it);
     });
 
     const indexProps = this.indexedPropertiesParser.map(({ key, value }) =>
